@@ -41,3 +41,20 @@ func VerifAllSidx(tst *tsTable) map[string]sidx.SIDX { return tst.getAllSidx() }
 
 // VerifDecodeTraceID decodes the opaque element a trace writes into its ordered index (decodeTraceID).
 func VerifDecodeTraceID(data []byte) (string, error) { return decodeTraceID(data) }
+
+// VerifResetGlobalChannels re-creates the two process-global semaphores of this package (merge concurrency,
+// sampler execution slots). They are created at package initialisation, i.e. outside any testing/synctest
+// bubble: a bubble goroutine blocked on such a channel is not "durably blocked", so the bubble's fake clock
+// stops for as long as a semaphore is contended (a merge waiting for a slot held by a sampler that sleeps on
+// the fake clock never gets it). Called inside the bubble before the engine starts; sizes <= 0 keep the
+// engine's own sizing (cgroups.CPUs()).
+func VerifResetGlobalChannels(mergeConcurrency, samplerSlots int) {
+	if mergeConcurrency <= 0 {
+		mergeConcurrency = cap(mergeMaxConcurrencyCh)
+	}
+	if samplerSlots <= 0 {
+		samplerSlots = cap(samplerExecutionSlots)
+	}
+	mergeMaxConcurrencyCh = make(chan struct{}, mergeConcurrency)
+	samplerExecutionSlots = make(chan struct{}, samplerSlots)
+}
